@@ -1,0 +1,1 @@
+//! Hooks owned by property C01 (feature `verif-hooks`).
